@@ -19,6 +19,13 @@ CHECKS = {
             "every new state. Held-on-observed-executions, exhaustive to the depth bound only.",
             "Trusted: mf/odmodel.py as a restatement of the property; Python's OrderedDict; icontract.",
             "DESIGN.md 2 C17"),
+    "C18": ("icontract snapshot+ensure contracts on the real update/find/findall/findunique (all bindings rebound) "
+            "compared per call with a reference implementation; findkey by identity with a manual walk",
+            "Random targets/patches derived from the target and random object lists; each call of the real helpers is "
+            "judged by a postcondition against mf/dictmodel.py, inputs outside the documented usage are observed but "
+            "not judged. Held on the calls observed.",
+            "Trusted: mf/dictmodel.py as a restatement of the documented laws; deep copies taken by the snapshot.",
+            "DESIGN.md 2 C18"),
 }
 
 NOT_APPLICABLE = {}
